@@ -1,6 +1,7 @@
 package http
 
 import (
+	"bytes"
 	"encoding/binary"
 	"fmt"
 	"io"
@@ -20,14 +21,15 @@ func ReadPosMapFrom(r io.Reader) (map[string]ltx.Pos, error) {
 	}
 
 	// Read entries and insert into map.
-	m := make(map[string]ltx.Pos, n)
+	// Do not trust the entry count or name lengths for allocation sizes.
+	m := make(map[string]ltx.Pos)
 	for i := uint32(0); i < n; i++ {
 		var nameN uint32
 		if err := binary.Read(r, binary.BigEndian, &nameN); err != nil {
 			return nil, err
 		}
-		name := make([]byte, nameN)
-		if _, err := io.ReadFull(r, name); err != nil {
+		var name bytes.Buffer
+		if _, err := io.CopyN(&name, r, int64(nameN)); err != nil {
 			return nil, err
 		}
 
@@ -37,7 +39,7 @@ func ReadPosMapFrom(r io.Reader) (map[string]ltx.Pos, error) {
 		} else if err := binary.Read(r, binary.BigEndian, &pos.PostApplyChecksum); err != nil {
 			return nil, err
 		}
-		m[string(name)] = pos
+		m[name.String()] = pos
 	}
 
 	return m, nil
